@@ -8,6 +8,7 @@
 From Coq Require Import ZArith List Bool String Permutation Sorted Relations.
 Import ListNotations.
 From FGV Require Import Base.Util Base.Bond Base.NX Base.NXFacts Model.Permute Model.Match Model.FGTree Model.FGDefaultCfg
+From FGV Require Import Proofs.GenParsed.
                         Spec.Embedding Spec.EmbSearch Spec.FGCheck Spec.FGSpec
                         Proofs.SortFacts Proofs.KeyOrder Proofs.FGTreeProofs Proofs.FGCheckProofs Proofs.FGDefaultTree Proofs.FGDefaultFacts
                         Spec.QuerySpec Proofs.EmbeddingOrder Proofs.SubgroupSem Proofs.EmbSearchProofs Proofs.KeyStrict Proofs.ConcreteHasse Proofs.RefBridge Proofs.QueryClosed.
@@ -272,6 +273,12 @@ Example C07_example :
   /\ keys_distinctb (map order_key ex_list) = true.
 Proof. repeat split; vm_compute; reflexivity. Qed.
 
+(* the pattern graphs of Gen/FGDefault.v (produced by the real parser inside the translator) are exactly what the
+   Coq model of the parser returns on the pattern strings, so the default-list theorems above speak about the
+   strings in fgconfig.py read through the parser model that C01 ties to fgutils.parse *)
+Theorem C07_default_graphs_parsed : default_graphs_parsedb = true.
+Proof. exact default_graphs_parsed. Qed.
+
 Print Assumptions C07_hasse_insert.
 Print Assumptions C07_ancestors.
 Print Assumptions C07_order_independent.
@@ -296,3 +303,4 @@ Print Assumptions C07_concrete.
 Print Assumptions C07_is_subgroup_sem_closed.
 Print Assumptions C07_concrete_closed.
 Print Assumptions C07_reference_is_embedding_order_closed.
+Print Assumptions C07_default_graphs_parsed.
